@@ -232,3 +232,46 @@ Definition finish_blocs (pools : list (bloc * list gballot)) : res (list (bloc *
   let! start := mk_profile pcand Pos.eqb [] [] in
   let! agg := fold_left (fun acc bp => let! a := acc in profile_add pcand Pos.eqb a (snd bp)) by_bloc (ok start) in
   ok (by_bloc, agg).
+
+(* ---------- MCMC samplers (name_BradleyTerry._BT_mcmc, slate_BradleyTerry._sample_ballot_types_MCMC) *)
+Fixpoint swap_adj {A} (j : nat) (l : list A) : list A :=
+  match j, l with
+  | O, x :: y :: rest => y :: x :: rest
+  | S j', x :: rest => x :: swap_adj j' rest
+  | _, _ => l
+  end.
+Definition Qmin1 (q : Q) : Q := if Qle_bool 1 q then 1 else q.
+
+(* name-BT chain: propose the adjacent transposition at j, accept with min(1, x_{j+1} / x_j) *)
+Definition bt_accept (iv : list (pcand * Q)) (cur : list pcand) (j : nat) : Q :=
+  match nth_error cur j, nth_error cur (S j) with
+  | Some a, Some b => Qmin1 (lookupP iv b / lookupP iv a)
+  | _, _ => 0
+  end.
+Definition bt_mcmc_step (iv : list (pcand * Q)) (cur : list pcand) (ju : nat * Q) : list pcand :=
+  if Qlt_bool (snd ju) (bt_accept iv cur (fst ju)) then swap_adj (fst ju) cur else cur.
+(* the chain's states after each step (the ballots emitted), from the seed ranking *)
+Fixpoint bt_mcmc_run (iv : list (pcand * Q)) (cur : list pcand) (steps : list (nat * Q)) : list (list pcand) :=
+  match steps with
+  | [] => []
+  | s :: rest => let nxt := bt_mcmc_step iv cur s in nxt :: bt_mcmc_run iv nxt rest
+  end.
+Definition bt_mcmc_bloc (iv : pinterval) (seed : list pcand) (steps : list (nat * Q)) : res (list gballot) :=
+  if negb (valid_sample (map fst (pi_int iv)) (length (pi_int iv)) seed) then err EScript
+  else if negb (forallb (fun s => Nat.ltb (S (fst s)) (length seed)) steps) then err EScript
+  else ok (map (fun r => unit_ballot (rank_of r (pi_zero iv))) (bt_mcmc_run (pi_int iv) seed steps)).
+
+(* slate-BT chain on ballot types: a swap that moves the voter's own bloc DOWN is accepted with
+   odds = (1 - c)/c, every other proposal with probability 1 (as coded) *)
+Definition slate_accept (own : bloc) (cohesion : Q) (cur : list bloc) (j : nat) : Q :=
+  match nth_error cur j, nth_error cur (S j) with
+  | Some a, Some b => if negb (Pos.eqb a b) && Pos.eqb a own then (1 - cohesion) / cohesion else 1
+  | _, _ => 1
+  end.
+Definition slate_mcmc_step (own : bloc) (cohesion : Q) (cur : list bloc) (ju : nat * Q) : list bloc :=
+  if Qlt_bool (snd ju) (slate_accept own cohesion cur (fst ju)) then swap_adj (fst ju) cur else cur.
+Fixpoint slate_mcmc_run (own : bloc) (cohesion : Q) (cur : list bloc) (steps : list (nat * Q)) : list (list bloc) :=
+  match steps with
+  | [] => []
+  | s :: rest => let nxt := slate_mcmc_step own cohesion cur s in nxt :: slate_mcmc_run own cohesion nxt rest
+  end.
